@@ -372,5 +372,8 @@ PROPS["C15"]["explanation"] += " (ATTRTYPE) an attribute re-typed in place throu
 PROPS["C17"]["rules"] = PROPS["C17"]["rules"] + [rules_dd.rule_open_cache_init]
 PROPS["C17"]["explanation"] += " (OPENINIT) Hopen stores the caching flag and clears the dirty flags on every path that makes a file record live, for existing files as for new ones. (ENDEXT) space reserved by advancing the end-of-file mark is recorded for extension."
 
+PROPS["C10"]["rules"] = PROPS["C10"]["rules"] + [rules_attr.rule_dim_dirty]
+PROPS["C10"]["explanation"] += " (DIMDIRTY) renaming a dimension or making it share an existing one sets NC_HDIRTY on every non-failing path."
+
 NOT_APPLICABLE = {}
 
